@@ -4,7 +4,7 @@
    which execute returned, and a snapshot of the tracker and of every
    application call.  The model runs the same script with the deterministic
    scheduler [settle] and must produce exactly the same observations. *)
-From Bifrost Require Export Lib.Base SignalClient.Model.
+From Bifrost Require Export Lib.Base SignalClient.Model SignalClient.Compose.
 
 Definition sgn_eqb (a b : sgn) : bool :=
   match a, b with
@@ -125,9 +125,92 @@ Definition script_case_agree (c : script_case) : bool :=
   | Script self peer ops ws => script_agree (mkCfg self peer) c_init ops ws
   end.
 
+(* ------------------------------------------------------------------ *)
+(* Composition scripts: the real relay server between two real clients.
+   After every operation everything is run to quiescence; the model uses the
+   deterministic scheduler [wsettle]. *)
+
+Inductive wop :=
+| WoConn (x : bool)                    (* client x starts execute (a new stream to the relay) *)
+| WoFail (x : bool)                    (* the stream of x breaks *)
+| WoSend (x : bool) (body : bytes)
+| WoCancelSend (x : bool) (i : nat)
+| WoRecv (x : bool)
+| WoCancelRecv (x : bool) (j : nat).
+
+Definition wop_action (o : wop) : wact :=
+  match o with
+  | WoConn x => WConn x
+  | WoFail x => WFail x
+  | WoSend x b => WCli x (ASendStart b)
+  | WoCancelSend x i => WCli x (ASendCancel i)
+  | WoRecv x => WCli x ARecvStart
+  | WoCancelRecv x j => WCli x (ARecvCancel j)
+  end.
+
+Definition side_internal (x : bool) (w : world) : list wact :=
+  let c := s_cl (gs x w) in
+  [RDetach x; RAttach x; RReq x; RLoop x; WDeliver x; WCli x ALoopErr; WCli x ALoop] ++
+  map (fun i => WCli x (ASendIter i)) (seq 0 (length (sends c))) ++
+  map (fun j => WCli x (ARecvIter j)) (seq 0 (length (recvs c))).
+
+Fixpoint wfirst_enabled (w : world) (l : list wact) : option (world * list (bool * obs)) :=
+  match l with
+  | [] => None
+  | a :: l' => match wstep w a with Some r => Some r | None => wfirst_enabled w l' end
+  end.
+
+Fixpoint wsettle (fuel : nat) (w : world) : world * list (bool * obs) * bool :=
+  match fuel with
+  | O => (w, [], false)
+  | S f =>
+      match wfirst_enabled w (side_internal true w ++ side_internal false w) with
+      | None => (w, [], true)
+      | Some (w1, o1) => let '(w2, o2, q) := wsettle f w1 in (w2, o1 ++ o2, q)
+      end
+  end.
+
+Definition wquiescent (w : world) : bool :=
+  match wfirst_enabled w (side_internal true w ++ side_internal false w) with None => true | Some _ => false end.
+
+Record sideobs := mkSO {
+  so_up : bool; so_tk : tracker; so_sends : list nat; so_recvs : list (nat * option smsg) }.
+
+Definition side_agree (c : cstate) (w : sideobs) : bool :=
+  Bool.eqb (match conn c with Some _ => true | None => false end) (so_up w) &&
+  tracker_eqb (tk c) (so_tk w) &&
+  list_eqb Nat.eqb (map send_code (sends c)) (so_sends w) &&
+  list_eqb recvobs_eqb (map recv_code (recvs c)) (so_recvs w).
+
+Definition wsettle_fuel : nat := 2000%nat.
+
+Definition wscript_step (w : world) (o : wop) : world * list (bool * obs) * bool :=
+  let '(w1, o1) := wexec w (wop_action o) in
+  let '(w2, o2, q) := wsettle wsettle_fuel w1 in
+  (w2, o1 ++ o2, q).
+
+Fixpoint wscript_agree (w : world) (ops : list wop) (ws : list (sideobs * sideobs)) : bool :=
+  match ops, ws with
+  | [], [] => true
+  | o :: ops', (oa, ob) :: ws' =>
+      let '(w1, _, q) := wscript_step w o in
+      q && side_agree (s_cl (w_a w1)) oa && side_agree (s_cl (w_b w1)) ob && wscript_agree w1 ops' ws'
+  | _, _ => false
+  end.
+
+Inductive sig_case :=
+| SC (c : script_case)
+| WC (ops : list wop) (obs : list (sideobs * sideobs)).
+
+Definition sig_case_agree (c : sig_case) : bool :=
+  match c with
+  | SC s => script_case_agree s
+  | WC ops ws => wscript_agree w_init ops ws
+  end.
+
 Definition c19_case := script_case.
 Definition c19_agree := script_case_agree.
-Definition c21_case := script_case.
-Definition c21_agree := script_case_agree.
-Definition c23_case := script_case.
-Definition c23_agree := script_case_agree.
+Definition c21_case := sig_case.
+Definition c21_agree := sig_case_agree.
+Definition c23_case := sig_case.
+Definition c23_agree := sig_case_agree.
